@@ -92,6 +92,7 @@ type histOpts struct {
 	Cancels       bool // cancel the user context of scopes
 	RepeatClose   bool // close scopes that are already closed / concurrently
 	NoCollEdits   bool // do not change the collection after Build (default: now and then)
+	NoRebuild     bool // do not build the collection a second time while the first provider is in use
 }
 
 type histStats struct {
@@ -278,6 +279,10 @@ func (x *run) exec(o Op) {
 		}
 	case "cedit":
 		x.R.EditCollection(o.Edits)
+	case "rebuild":
+		if x.R.P != nil && !x.R.PClosed {
+			x.R.Rebuild()
+		}
 	case "idle":
 		// nothing: gives goroutines godi has started (context watchers) time to run while another
 		// thread is parked; only decides which interleaving is realised, never a verdict
@@ -321,6 +326,10 @@ func (x *run) genHistory(rt *rapid.T, o histOpts) {
 		}
 		if o.CloseScopes && rapid.IntRange(0, 11).Draw(rt, "churn") == 0 {
 			x.genChurn(rt, o, ids)
+			continue
+		}
+		if !o.NoRebuild && !o.NoCollEdits && rapid.IntRange(0, 15).Draw(rt, "rebuild") == 0 {
+			x.exec(Op{Kind: "rebuild"})
 			continue
 		}
 		if !o.NoCollEdits && rapid.IntRange(0, 13).Draw(rt, "cedit") == 0 {
